@@ -322,7 +322,13 @@ func (b *Block) Value() (interface{}, error) {
 		if err != nil {
 			return nil, err
 		}
-		end := binary.LittleEndian.Uint32(blockData[:4])
+		if len(blockData) < 4 {
+			return nil, errors.New("cram: truncated file header block")
+		}
+		end := int(binary.LittleEndian.Uint32(blockData[:4]))
+		if end > len(blockData)-4 {
+			return nil, errors.New("cram: invalid file header length")
+		}
 		err = h.UnmarshalText(blockData[4 : 4+end])
 		if err != nil {
 			return nil, err
@@ -353,7 +359,7 @@ func (b *Block) Value() (interface{}, error) {
 func (b *Block) expandBlockdata() ([]byte, error) {
 	switch b.method {
 	default:
-		panic(fmt.Sprintf("cram: unknown method: %v", b.method))
+		return nil, fmt.Errorf("cram: unknown method: %v", b.method)
 	case rawMethod:
 		return b.blockData, nil
 	case gzipMethod:
